@@ -10,10 +10,33 @@ class Rec:
     __slots__ = ('f', 'named', 'va', 'vk')
     def __init__(self, f, named, va, vk):
         self.f, self.named, self.va, self.vk = f, named, va, vk
+    def __eq__(self, o):
+        return isinstance(o, Rec) and (self.f, self.named, self.va, self.vk) == (o.f, o.named, o.va, o.vk)
+    __hash__ = None
 class TupleRec:
     __slots__ = ('items',)
     def __init__(self, items):
         self.items = items
+    def __eq__(self, o):
+        return isinstance(o, TupleRec) and self.items == o.items
+    __hash__ = None
+
+EXEC_LOG = []   # (what, node path, node safe flag, received arguments) of every execution, attributed by frame inspection
+
+def _who():
+    """the dynamic node on whose behalf the current recording callable runs: the nearest caller frame that is an
+    on_evaluate_impl of nodes/call.py, bind.py or eval.py"""
+    f = sys._getframe(2)
+    while f is not None:
+        co = f.f_code
+        if co.co_name == 'on_evaluate_impl' and co.co_filename.replace('\\', '/').rsplit('/', 1)[-1] in ('call.py', 'bind.py', 'eval.py'):
+            node, path = f.f_locals.get('self'), f.f_locals.get('path')
+            try:
+                return (str(path), bool(node.ayns.safe), id(node))
+            except Exception:
+                return (str(path), None, id(node))
+        f = f.f_back
+    return (None, None, None)
 
 class WorldImpl:
     """materialises a world spec: module(s) with recording functions, eval symbols, log"""
@@ -41,9 +64,9 @@ class WorldImpl:
             va = next((nm for nm, k, _ in sig if k == 'va'), None)
             vk = next((nm for nm, k, _ in sig if k == 'vk'), None)
             src = f"def {short}({', '.join(params)}):\n" \
-                  f"    _log.append('call:{fname}')\n" \
+                  f"    _log.append('call:{fname}'); _xlog.append(('call:{fname}',) + _who() + (([{', '.join(names)}], {va or '()'}, {vk or '{}'}),))\n" \
                   f"    return _Rec({fname!r}, [{', '.join(f'({n!r}, {n})' for n in names)}], {va or '()'}, {vk or '{}'})\n"
-            ns = {'_log': self.log, '_Rec': Rec}
+            ns = {'_log': self.log, '_Rec': Rec, '_xlog': EXEC_LOG, '_who': _who}
             exec(src, ns)
             fn = ns[short]
             fn.__module__ = mod
@@ -53,7 +76,7 @@ class WorldImpl:
             self.mods.setdefault(mname, types.ModuleType(mname))
         log = self.log
         def T(*a):
-            log.append('eval')
+            log.append('eval'); EXEC_LOG.append(('eval',) + _who() + ((list(a), (), {}),))
             return TupleRec(a)
         self.syms = {}
         for s in spec.get('syms', []):
@@ -66,6 +89,7 @@ class WorldImpl:
             self.symnames[id(getattr(builtins, b))] = b
 
     def __enter__(self):
+        del EXEC_LOG[:]
         self.saved = {k: sys.modules.get(k) for k in self.mods}
         sys.modules.update(self.mods)
         return self
@@ -85,12 +109,14 @@ def conv_val(v, w, ids):
         return id(x)
     if isinstance(v, ConfigNode) or isinstance(v, EvalContext.PartialChild):
         return {'LEAK': type(v).__name__}
-    if v is None or isinstance(v, (bool, str)):
+    if v is None or type(v) in (bool, str):
         return v
-    if isinstance(v, int):
-        return int(v)
-    if isinstance(v, float):
+    if type(v) is int:
+        return v
+    if type(v) is float:
         return {'f': repr(v)}
+    if isinstance(v, (bool, str, int, float)):
+        return {'LEAK': 'scalar-subclass:' + type(v).__name__}
     if isinstance(v, Rec):
         o = oid(v)
         return {'app': v.f, 'named': [[k, conv_val(x, w, ids)] for k, x in v.named], 'va': [conv_val(x, w, ids) for x in v.va],
